@@ -14,7 +14,14 @@ open Qats Qats.Gen
 /-- Quantile estimates increase with the probability (for a positive Gumbel scale). -/
 theorem gumbel_quantile_increasing' (gl gs p q : ℝ) (hgs : 0 < gs) (hp : 0 < p) (hpq : p < q) (hq : q < 1) :
     gu_invcdf gl p gs < gu_invcdf gl q gs := by
-  sorry
+  rw [Dist.gu_invcdf_eq, Dist.gu_invcdf_eq]
+  have hq0 : 0 < q := hp.trans hpq
+  have h1 : Real.log p < Real.log q := Real.log_lt_log hp hpq
+  have h2 : Real.log q < 0 := Real.log_neg hq0 hq
+  have h3 : Real.log (-Real.log q) < Real.log (-Real.log p) :=
+    Real.log_lt_log (by linarith) (by linarith)
+  have := mul_lt_mul_of_pos_left h3 hgs
+  linarith
 
 /-- The minima variant is the mirror image of the maxima variant of the negated signal: same Weibull / Gumbel parameters,
 negated quantile estimates and sample. -/
@@ -22,7 +29,16 @@ theorem summary_mirror' (rnd : ℝ → Int) (sd dur : ℝ) (qs x : List ℝ) :
     summary rnd sd dur qs true x =
       (summary rnd sd dur qs false (x.map fun v => -v)).map fun s =>
         { s with pvalues := s.pvalues.map fun v => -v, sample := s.sample.map fun v => -v } := by
-  sorry
+  have e1 : (x.map fun v => -(1.0:ℝ) * v) = ((x.map fun v => -v).map fun v => (1.0:ℝ) * v) := by
+    rw [List.map_map]; apply List.map_congr_left; intro v _; simp
+  unfold summary
+  simp only [↓reduceIte, Bool.false_eq_true, e1]
+  split
+  · rfl
+  · simp only [Option.map_some, Option.some.injEq, Summary.mk.injEq, true_and, List.map_map]
+    constructor
+    · apply List.map_congr_left; intro v _; simp
+    · apply List.map_congr_left; intro v _; simp
 
 /-- The reported Gumbel location is the Weibull (1 − 1/n)-quantile of the reported Weibull parameters, the scale is
 1/(n·density there), with `n = round(statsdur/duration · #maxima)` (whenever `n > 1` and the fitted scale and shape are
@@ -34,7 +50,74 @@ theorem summary_chain' (rnd : ℝ → Int) (sd dur : ℝ) (qs x : List ℝ) (isM
       s.gloc = wb_invcdf s.wloc (1 - 1 / n) s.wscale s.wshape ∧
       s.gscale = 1 / (n * wb_pdf s.wloc s.wscale s.wshape s.gloc) ∧
       s.pvalues = qs.map fun p => (if isMin then -1 else 1) * gu_invcdf s.gloc p s.gscale := by
-  sorry
+  unfold summary at h
+  cases isMin <;>
+  · simp only [↓reduceIte, Bool.false_eq_true] at h
+    split at h
+    · exact absurd h (by simp)
+    · rw [Option.some.injEq] at h
+      subst h
+      simp only [List.length_map]
+      intro hn hs hc
+      refine ⟨?_, ?_, ?_⟩
+      · exact Dist.gloc_is_quantile' _ _ _ _ hn
+      · exact Dist.gscale_is_inverse_intensity' _ _ _ _ hs hc hn
+      · apply List.map_congr_left
+        intro p _
+        generalize (gu_invcdf _ _ _ : ℝ) = y
+        norm_num
+
+/-! ### helpers for the affine equivariance -/
+
+theorem map_one_mul (l : List ℝ) : (l.map fun v => (1.0 : ℝ) * v) = l := by
+  have : (fun v : ℝ => (1.0 : ℝ) * v) = id := by funext v; norm_num
+  rw [this, List.map_id]
+
+theorem w2g_loc_affine (a b l n s c : ℝ) :
+    w2g_loc (a * l + b) n (a * s) c = a * w2g_loc l n s c + b := by
+  rw [Dist.w2g_loc_eq, Dist.w2g_loc_eq]; ring
+
+theorem w2g_scale_affine (a n s c : ℝ) :
+    w2g_scale n (a * s) c = a * w2g_scale n s c := by
+  rw [Dist.w2g_scale_eq, Dist.w2g_scale_eq]
+  have e : c / (a * s) * Real.log n ^ ((c - 1) / c) = (c / s * Real.log n ^ ((c - 1) / c)) / a := by
+    rw [mul_comm a s, ← div_div]; ring
+  rw [e, one_div_div, mul_one_div]
+
+theorem gu_invcdf_affine (a b g p σ : ℝ) :
+    gu_invcdf (a * g + b) p (a * σ) = a * gu_invcdf g p σ + b := by
+  rw [Dist.gu_invcdf_eq, Dist.gu_invcdf_eq]; ring
+
+/-- The maxima variant with the trivial sign factor `1.0` removed. -/
+theorem summary_false_eq (rnd : ℝ → Int) (sd dur : ℝ) (qs x : List ℝ) :
+    summary rnd sd dur qs false x =
+      if ((Peaks.findMaxima x false none).map (·.2)).length ≤ 1 then none
+      else
+        some { wloc := (Dist.weibullPwm ((Peaks.findMaxima x false none).map (·.2))).1,
+               wscale := (Dist.weibullPwm ((Peaks.findMaxima x false none).map (·.2))).2.1,
+               wshape := (Dist.weibullPwm ((Peaks.findMaxima x false none).map (·.2))).2.2,
+               gloc := w2g_loc (Dist.weibullPwm ((Peaks.findMaxima x false none).map (·.2))).1
+                 ((rnd (sd / dur * (((Peaks.findMaxima x false none).map (·.2)).length : ℝ)) : Int) : ℝ)
+                 (Dist.weibullPwm ((Peaks.findMaxima x false none).map (·.2))).2.1
+                 (Dist.weibullPwm ((Peaks.findMaxima x false none).map (·.2))).2.2,
+               gscale := w2g_scale
+                 ((rnd (sd / dur * (((Peaks.findMaxima x false none).map (·.2)).length : ℝ)) : Int) : ℝ)
+                 (Dist.weibullPwm ((Peaks.findMaxima x false none).map (·.2))).2.1
+                 (Dist.weibullPwm ((Peaks.findMaxima x false none).map (·.2))).2.2,
+               pvalues := qs.map fun p => gu_invcdf
+                 (w2g_loc (Dist.weibullPwm ((Peaks.findMaxima x false none).map (·.2))).1
+                   ((rnd (sd / dur * (((Peaks.findMaxima x false none).map (·.2)).length : ℝ)) : Int) : ℝ)
+                   (Dist.weibullPwm ((Peaks.findMaxima x false none).map (·.2))).2.1
+                   (Dist.weibullPwm ((Peaks.findMaxima x false none).map (·.2))).2.2) p
+                 (w2g_scale
+                   ((rnd (sd / dur * (((Peaks.findMaxima x false none).map (·.2)).length : ℝ)) : Int) : ℝ)
+                   (Dist.weibullPwm ((Peaks.findMaxima x false none).map (·.2))).2.1
+                   (Dist.weibullPwm ((Peaks.findMaxima x false none).map (·.2))).2.2),
+               sample := (Peaks.findMaxima x false none).map (·.2) } := by
+  unfold summary
+  simp only [Bool.false_eq_true, ↓reduceIte, map_one_mul]
+  have : ∀ y : ℝ, (1.0 : ℝ) * y = y := fun y => by norm_num
+  simp only [this]
 
 /-- Affine equivariance of the maxima summary: under `x ↦ a·x + b` (`a > 0`) location-type quantities map as `a·v + b`,
 scale-type quantities as `a·v`, the shape is unchanged, quantile estimates and the sample map as `a·v + b`.
@@ -47,6 +130,22 @@ theorem summary_affine' (rnd : ℝ → Int) (sd dur a b : ℝ) (ha : 0 < a) (qs 
       some { wloc := a * s.wloc + b, wscale := a * s.wscale, wshape := s.wshape,
              gloc := a * s.gloc + b, gscale := a * s.gscale,
              pvalues := s.pvalues.map fun v => a * v + b, sample := s.sample.map fun v => a * v + b } := by
-  sorry
+  rw [summary_false_eq] at h ⊢
+  have hm : (Peaks.findMaxima (x.map fun v => a * v + b) false none).map (·.2) =
+      ((Peaks.findMaxima x false none).map (·.2)).map fun v => a * v + b := by
+    have := Peaks.findMaxima_affine' x false none a b ha
+    rw [Option.map_none] at this
+    rw [this, List.map_map, List.map_map]; rfl
+  rw [hm]
+  generalize (Peaks.findMaxima x false none).map (·.2) = mx at h ⊢
+  split at h
+  · exact absurd h (by simp)
+  · rename_i hl
+    rw [Option.some.injEq] at h
+    subst h
+    simp only at h4 hden hden2 ⊢
+    rw [List.length_map, if_neg hl, Dist.weibullPwm_equivariant' mx a b ha h4 hden hden2]
+    simp only [w2g_loc_affine, w2g_scale_affine, gu_invcdf_affine, List.map_map]
+    rfl
 
 end Qats.Stats
